@@ -7,7 +7,7 @@ from vt.core import (R, rng_for, dn, dnb, rand_cores, lowrank_cores, tt_from, ra
 ID = 'C05'
 LEVEL = 'exploration'
 RULE = ('complete enumeration of order x row dims x rank vector x dtype x value family (generic, rank-deficient '
-        'unfoldings, small-int) x overall scale {1, 1e-12, 1e10} x EVERY split index x (ortho_l, ortho_r) flags (False only on an already orthonormal '
+        'unfoldings, small-int, exactly tied singular values) x representation gauge (raw, all cores but the first left-orthonormal, all but the last right-orthonormal) x overall scale {1, 1e-12, 1e10} x EVERY split index x (ortho_l, ortho_r) flags (False only on an already orthonormal '
         'side) x overwrite x threshold {0,1e-10} x max_rank {inf,1,2}; svd and pinv at each point. Non-trivial: order '
         '>= 3, a rank-deficient unfolding, complex data, a disabled sweep, overwrite or truncation.')
 ASSUMPTIONS = ['numpy.linalg.svd / pinv of the dense unfolding are the reference', 'column dimensions 1 (D2)',
@@ -18,7 +18,7 @@ CHUNK = 24
 
 def space(tier):
     q = tier == 'quick'
-    return {'orders': [2, 3] if q else [2, 3, 4], 'rows': [1, 2, 3], 'ranks': [1, 2, 3], 'families': ['gauss', 'lowrank', 'int'],
+    return {'orders': [2, 3] if q else [2, 3, 4], 'rows': [1, 2, 3], 'ranks': [1, 2, 3], 'families': ['gauss', 'lowrank', 'int', 'ties (weighted unit tensors)'], 'gauges': ['raw', 'left-orthonormal but first core', 'right-orthonormal but last core'],
             'flags': 'ortho_l x ortho_r x overwrite', 'threshold': [0, 1e-10], 'max_rank': ['inf', 1, 2]}
 
 
@@ -36,6 +36,25 @@ def cases(tier):
                                 if scale != 1.0 and fam == 'int':
                                     continue
                                 yield {'rows': list(rows), 'r': rk, 'c': c, 'fam': fam, 'idx': idx, 'scale': scale}
+                            if fam == 'gauss':
+                                # partially orthonormal representations: every core but the first left-orthonormal / every core but
+                                # the last right-orthonormal (what scalar * ortho_left() or sums of unit tensors look like)
+                                for gauge in ('left-but-first', 'right-but-last'):
+                                    yield {'rows': list(rows), 'r': rk, 'c': c, 'fam': fam, 'idx': idx, 'scale': 1.0, 'gauge': gauge}
+            if min(rows) >= 2:
+                for c in (False, True):
+                    for idx in range(1, d):
+                        yield {'rows': list(rows), 'r': [1] + [min(rows)] * (d - 1) + [1], 'c': c, 'fam': 'ties', 'idx': idx, 'scale': 1.0}
+    if q:
+        # order 4 (the first order with a split index whose left part has an interior core)
+        for rows in ([2, 2, 2, 2], [2, 3, 2, 2]):
+            for rk in ([1, 2, 2, 2, 1], [1, 2, 3, 2, 1]):
+                for c in (False, True):
+                    for idx in (1, 2, 3):
+                        for gauge in (None, 'left-but-first', 'right-but-last'):
+                            yield {'rows': rows, 'r': rk, 'c': c, 'fam': 'gauss', 'idx': idx, 'scale': 1.0, 'gauge': gauge}
+                        if rk[1:-1] == [2, 2, 2]:
+                            yield {'rows': rows, 'r': rk, 'c': c, 'fam': 'ties', 'idx': idx, 'scale': 1.0}
 
 
 def run_case(case, seed):
@@ -45,8 +64,38 @@ def run_case(case, seed):
     d = len(rows)
     if fam == 'lowrank':
         cores0 = lowrank_cores(rng, rows, [1] * d, rk, c, 1)
+    elif fam == 'ties':
+        # sum of J unit tensors with weights (2,2,1): exactly tied singular values in every unfolding, inner cores are
+        # partial identities (orthonormal on both sides), the weights sit in the first core
+        J = rk[1]
+        w = [2.0, 2.0, 1.0][:J]
+        cores0 = []
+        for i in range(d):
+            cr = np.zeros((1 if i == 0 else J, rows[i], 1, 1 if i == d - 1 else J), dtype=complex if c else float)
+            for j in range(J):
+                cr[0 if i == 0 else j, j, 0, 0 if i == d - 1 else j] = (w[j] * ((1j) ** j if c else 1.0)) if i == 0 else 1.0
+            cores0.append(cr)
     else:
         cores0 = rand_cores(rng, rows, [1] * d, rk, c, fam)
+    gauge = case.get('gauge')
+    if gauge == 'left-but-first':
+        for i in range(d - 1):
+            cr = cores0[i]
+            qm, rm = np.linalg.qr(cr.reshape(-1, cr.shape[3]))
+            cores0[i] = qm.reshape(cr.shape[0], cr.shape[1], 1, qm.shape[1])
+            cores0[i + 1] = np.tensordot(rm, cores0[i + 1], axes=(1, 0))
+        cores0[0] = 3.0 * cores0[0]
+        if d > 2:
+            cores0[0][0, 0, 0, :] += 0.5
+    elif gauge == 'right-but-last':
+        for i in range(d - 1, 0, -1):
+            cr = cores0[i]
+            qm, rm = np.linalg.qr(cr.reshape(cr.shape[0], -1).T)
+            cores0[i] = qm.T.reshape(qm.shape[1], cr.shape[1], 1, cr.shape[3])
+            cores0[i - 1] = np.tensordot(cores0[i - 1], rm.T, axes=(3, 0))
+        cores0[-1] = 3.0 * cores0[-1]
+        if d > 2:
+            cores0[-1][:, 0, 0, 0] += 0.5
     cores0[0] = cores0[0] * case.get('scale', 1.0)     # relative cuts must not depend on the scale of the tensor
     a = dn(tt_from(cores0)).reshape(rows)
     m = int(np.prod(rows[:idx])); n = int(np.prod(rows[idx:]))
@@ -56,6 +105,10 @@ def run_case(case, seed):
         r.skipped += 1
         return r
     nrank = int(np.sum(sref > 1e-11 * sref[0]))
+    allranks = []
+    for k_ in range(1, d):
+        sk = np.linalg.svd(a.reshape(int(np.prod(rows[:k_])), -1), compute_uv=False)
+        allranks.append(int(np.sum(sk > 1e-11 * sk[0])))
     deficient = nrank < min(m, n)
     r.nontrivial = True
     sc = sref[0]
@@ -85,14 +138,14 @@ def run_case(case, seed):
                 r.close(key + ':u-orthonormal', U.conj().T @ U, np.eye(k), 1e-10)
                 r.close(key + ':v-orthonormal', V @ V.conj().T, np.eye(k), 1e-10)
                 r.true(key + ':s-sorted', np.all(np.diff(s) <= 1e-12 * sc) and np.all(np.asarray(s) >= 0))
-                if mr == np.inf:
+                if mr == np.inf or mr >= max(rk):         # a cap that no bond of the representation reaches truncates nothing
                     kk = min(k, len(sref))
                     r.close(key + ':singular-values', np.asarray(s)[:kk] / sc, sref[:kk] / sc, 1e-10)
                     r.true(key + ':singular-values-complete', np.all(sref[k:] <= 1e-9 * sc), 'dropped %s' % sref[k:])
                     if thr != 0:
                         r.true(key + ':threshold-cut', k == nrank, 'kept %d numerical rank %d' % (k, nrank))
                     r.close(key + ':reconstruction', (U * np.asarray(s)) @ V / sc, A / sc, 1e-10)
-                else:
+                if mr != np.inf:
                     r.true(key + ':rank-cap', k <= mr and (not ol or all(x <= mr for x in u.ranks[1:])) and
                            (not orr or all(x <= mr for x in v.ranks[:-1])),   # a disabled sweep caps nothing on its side
                            'k=%d ranks %s %s' % (k, u.ranks, v.ranks))
